@@ -59,6 +59,7 @@ class Registry:
         self.notes = []
         self.pc_returning = False
         self.neff_met = False
+        self.sparse = False
 
     def dig_id(self, hexd):
         return self.dig_ids.setdefault(hexd, len(self.dig_ids) + 1)
@@ -130,6 +131,8 @@ class TracedSampler(Sampler):
             reg.pc = 'out'
         if name in ('Resume', 'SetDiscard'):
             reg.neff_met = False
+        if reg.sparse:
+            return                      # snapshot-only histories: ids are registered, steps are not projected
         rec = project(self, reg)
         rec['event'] = dict(name=name, **ev)
         self._pending = rec
@@ -187,16 +190,24 @@ class TracedSampler(Sampler):
         c0 = len(m.calls)
         log_l, blobs = super().evaluate_likelihood(points)
         intact = bool(before.shape == np.shape(points) and np.array_equal(before, points))
-        inproc = self.pool_l is None
+        inproc = self.pool_l is None or bool(getattr(getattr(self.pool_l, 'pool', None), 'in_process', False))
         ncalls = (m.n_calls - n0) if inproc else len(before)
         args_ok = intact
         if inproc and m.record:
             seen = m.calls[c0:]
             if len(seen) != len(before):
-                args_ok = False
-            else:
+                # (more or fewer calls than points is the business of AS_BatchExact, not of this clause)
+                args_ok = args_ok and len(seen) >= len(before)
+            if self.pool_l is None:
                 for u, th in zip(before, seen):
                     if not np.array_equal(m.prior_pure(u), th):
+                        args_ok = False
+                        break
+            else:
+                # an in-process pool may run the tasks in any order: every point must have been seen as prior(point)
+                got = set(np.ascontiguousarray(th).tobytes() for th in seen)
+                for u in before:
+                    if np.ascontiguousarray(m.prior_pure(u)).tobytes() not in got:
                         args_ok = False
                         break
         for k, u in enumerate(before):
@@ -349,6 +360,8 @@ class TracedSampler(Sampler):
         self._emit('Posterior', rows=rows, rowLvl=row_lvl, rowBlob=row_blob, pointsOK=bool(all(r > 0 for r in rows)))
         # weight residuals against the estimator the specification defines
         rec = self._pending
+        if rec is None:
+            return out
         est = indep_estimates(self)
         if est is not None and est['w'] is not None and len(est['w']) == len(log_w) and est['z'] > 0:
             w = np.exp(log_w)
